@@ -82,6 +82,12 @@ def apply(lib, spec, ops):
     if op == "construct":
         return x
     if op in CMP:
+        if a.get("value_operand"):
+            # array-valued threshold (same shape or broadcast along the leading axes), NumPy or dask array
+            v = ops[1]
+            if a["value_operand"] == "np" and lib is not np:
+                v = np.asarray(A.build_np(spec["operands"][1]["array"]))
+            return getattr(ma, op)(x, v)
         return getattr(ma, op)(x, a["value"])
     if op == "masked_where":
         return ma.masked_where(ops[1], x)
@@ -244,6 +250,14 @@ def random_case(draw):
     if op == "cmp":
         spec["op"] = draw(st.sampled_from(CMP))
         a["value"] = draw(st.integers(-3, 3))
+        # (da.ma.masked_equal documents that it rejects array values; the other comparisons take them)
+        if nd >= 1 and spec["op"] != "masked_equal" and draw(st.integers(0, 2)) == 0:
+            vshape = shape[draw(st.integers(0, nd - 1)) :]
+            val = draw(A.array_spec(shape=vshape, dtypes=("i8", "f8"), fills=("small",)))
+            if len(vshape) == nd and draw(st.booleans()):
+                val["chunks"] = x["array"]["chunks"]
+            a["value_operand"] = draw(st.sampled_from(["np", "da"]))
+            spec["operands"].append({"array": val, "mask": {"kind": "none"}, "plain": True})
     elif op == "masked_where":
         cond = draw(A.array_spec(shape=shape, dtypes=("bool", "i8"), fills=("dups",)))
         cond["chunks"] = draw(st.sampled_from([x["array"]["chunks"], cond["chunks"]]))
